@@ -1,0 +1,13 @@
+//go:build verif
+
+package rss
+
+// VerifFinderPatterns returns a copy of the RSS-14 finder pattern table
+// (verification harness only; compiled with -tags verif).
+func VerifFinderPatterns() [][]int {
+	out := make([][]int, len(rss14_FINDER_PATTERNS))
+	for i := range rss14_FINDER_PATTERNS {
+		out[i] = append([]int(nil), rss14_FINDER_PATTERNS[i]...)
+	}
+	return out
+}
